@@ -207,7 +207,8 @@ class BoundedDict(DictMixin):
         @delete_cb: (optional) callback called when an element is removed
         """
         self._data = initialdata.copy() if initialdata else {}
-        self._min_size = min_size if min_size else max_size // 3
+        # Keep at least one element on resize (max_size // 3 is 0 for max_size < 3)
+        self._min_size = min_size if min_size else max(max_size // 3, 1)
         self._max_size = max_size
         self._size = len(self._data)
         # Do not use collections.Counter as it is quite slow
